@@ -13,7 +13,12 @@ from .pyast import call_name, is_self_attr, names_loaded, pyfacts, unparse
 VISITORS_REL = "coco/b09/visitors.py"
 
 
-@rule("E1c", "ANNOUNCE-FIRST: a statement announces itself to the visitor before its operands are visited (hoisted calls land in their own statement)", ["C05", "C04"], floor=15)
+E1C_CONTAINERS = {
+    "BasicStatements": "a container: each of its statements announces itself",
+}
+
+
+@rule("E1c", "ANNOUNCE-FIRST: a statement announces itself to the visitor before its operands are visited (hoisted calls land in their own statement)", ["C05", "C04", "C06"], floor=15, default_props=["C05", "C04"])
 def e1c(ctx: Ctx):
     em = emitmodel(ctx)
     py = em.py
@@ -30,10 +35,24 @@ def e1c(ctx: Ctx):
                 ann = i
             if ev.kind == "visit" and first_child is None and roots(ev.origin) - {"<self>"}:
                 first_child = i
-        if ann is None or first_child is None:
+        r = py.resolve_method(cls, "visit")
+        if ann is None:
+            if cls in E1C_CONTAINERS:
+                ctx.info(cls, "exception: " + E1C_CONTAINERS[cls], file=r[0].module, line=r[1].lineno)
+                continue
+            ctx.ob(
+                cls,
+                False,
+                f"`{r[0].name}.visit` never calls visitor.visit_statement(self): the statement is invisible to the passes that look for statements (duplicate ON ERR/ON BRK refusal, DIM and HBUFF detection) and procedure calls hoisted out of its operands are attached to the previous statement",
+                file=r[0].module,
+                line=r[1].lineno,
+                props=["C05", "C04", "C06"],
+            )
+            continue
+        if first_child is None:
+            ctx.ob(cls, True, file=r[0].module, line=r[1].lineno)
             continue
         ok = ann < first_child
-        r = py.resolve_method(cls, "visit")
         ctx.ob(
             cls,
             ok,
@@ -60,6 +79,17 @@ def e13(ctx: Ctx):
     for i, body in enumerate(branches):
         assign = next((s for s in body if isinstance(s, ast.Assign) and isinstance(s.value, ast.JoinedStr)), None)
         add = next((s for s in body if isinstance(s, ast.Expr) and isinstance(s.value, ast.Call) and call_name(s.value) == "add"), None)
+        if assign is not None and add is None and any(isinstance(c, ast.Call) and call_name(c) == "len" for c in ast.walk(assign.value)):
+            kind = "string" if i == 0 else "numeric"
+            ctx.ob(
+                f"get_new_temp:{kind}",
+                False,
+                f"the {kind} temporary is numbered from the size of a set in which it is never registered: every temporary of a statement gets the same name",
+                file=ELEMENTS_REL,
+                line=assign.lineno,
+                witness="10 A=INT(B)+INT(C)",
+            )
+            continue
         if assign is None or add is None:
             raise IdiomNotFound("`val = f'tmp_{len(S) + 1}'; S.add(val)` not recognised")
         lens = [c for c in ast.walk(assign.value) if isinstance(c, ast.Call) and call_name(c) == "len"]
